@@ -148,6 +148,10 @@ func BuildLegacy(r *rand.Rand, root string, tag string) Legacy {
 					dsc["artifactType"] = "application/wrong"
 				case "stale-annotations":
 					dsc["annotations"] = map[string]string{"seed": "other"}
+					if len(a.D)%2 == 0 || a.D[len(a.D)-1] < '8' {
+						// same keys, one value differs (the comparison of the values decides, not the count)
+						dsc["annotations"] = map[string]string{"seed": "other", "u": tag}
+					}
 				}
 			}
 			descs = append(descs, dsc)
